@@ -16,7 +16,28 @@ fn pool() -> Vec<Ty> {
     vec![
         u(8), Ty::Bool, u(16), Ty::tup(vec![u(8), u(8)]), Ty::arr(u(8), 2), Ty::opt(u(8)), Ty::either(Ty::unit(), u(8)), Ty::list(u(8), 2), u(1), Ty::tup(vec![u(8)]),
         u(256), Ty::arr(u(8), 32), Ty::list(u(8), 4), Ty::unit(), u(4),
+        // tuples of four and five components: the first arities at which a balanced product tree and a right-nested one differ
+        Ty::tup(vec![u(8), u(8), u(8), u(8)]), Ty::tup(vec![Ty::Bool, u(8), u(8), u(32), u(16)]),
     ]
+}
+
+/// Wider shapes, used for the one-parameter programs only: every tuple arity up to 9, arrays of every length up to 9,
+/// list bounds up to 16, and n-ary types nested in each other.
+fn wide_pool() -> Vec<Ty> {
+    let u = Ty::U;
+    let mut v = vec![];
+    for n in 3..=9usize {
+        v.push(Ty::tup((0..n).map(|i| if i % 3 == 1 { u(16) } else { u(8) }).collect()));
+        v.push(Ty::arr(u(8), n));
+    }
+    v.push(Ty::list(u(8), 8));
+    v.push(Ty::list(u(16), 16));
+    v.push(Ty::arr(Ty::tup(vec![u(1), u(1), u(1), u(1)]), 3));
+    v.push(Ty::opt(Ty::tup(vec![u(8), Ty::Bool, u(8), Ty::Bool])));
+    v.push(Ty::list(Ty::tup(vec![u(8), u(8), u(8), u(8), u(8)]), 4));
+    v.push(Ty::either(Ty::tup(vec![u(8), u(8), u(8), u(8)]), Ty::arr(u(8), 5)));
+    v.push(Ty::tup(vec![Ty::tup(vec![u(8), u(8), u(8), u(8)]), Ty::tup(vec![u(8), u(8), u(8), u(8), u(8)])]));
+    v
 }
 
 #[derive(Clone, Debug)]
@@ -63,6 +84,11 @@ fn slot_sets(quick: bool) -> Vec<Vec<Slot>> {
     // k = 1: every type x every position
     for t in &p {
         for pos in 0..3u8 {
+            out.push(vec![Slot { name: "P0".into(), ty: t.clone(), pos }]);
+        }
+    }
+    for t in &wide_pool() {
+        for pos in 0..2u8 {
             out.push(vec![Slot { name: "P0".into(), ty: t.clone(), pos }]);
         }
     }
